@@ -2,6 +2,8 @@ import Driver.Util
 import CRModel.XsdModel
 import CRModel.XmlNum
 import CRModel.CRXmlW
+import CRModel.CRXmlWDoc
+import CRModel.CRXmlWOk
 import Gen.XsdScenario
 open Lean CR.Drv
 
@@ -84,6 +86,169 @@ def kids (b : String) (a : Json) : P (List String) := do
         nProblems := ← n "problems" })
   | _ => throw s!"C03 kids: unknown builder {b}"
 
+/-! ### decoding the document data of op `tree` (harness/c03.py: doc_data) -/
+section Doc
+open CR.XmlW
+
+def num (j : Json) : P Num := do
+  match ← asArr j with
+  | [r, ng, nu, de] => pure { repr := (← asStr r).toList, neg := ← asBool ng, num := ← asNat nu, den := ← asNat de }
+  | _ => throw "num: expected [repr, neg, num, den]"
+
+def pt (j : Json) : P Pt := do
+  match ← asArr j with
+  | [x, y] => pure { x := ← num x, y := ← num y }
+  | [x, y, z] => pure { x := ← num x, y := ← num y, z := some (← num z) }
+  | _ => throw "pt"
+
+def optOf {α} (f : Json → P α) (j : Json) : P (Option α) :=
+  match j with
+  | .null => pure none
+  | v => do pure (some (← f v))
+
+def getOpt {α} (f : Json → P α) (j : Json) (k : String) : P (Option α) :=
+  match fieldOpt j k with
+  | none => pure none
+  | some v => do pure (some (← f v))
+
+def shape1 (j : Json) : P Shape1 := do
+  match ← asArr j with
+  | [.str "rect", l, w, o, cx, cy] => pure (.rect (← num l) (← num w) (← num o) (← num cx) (← num cy))
+  | [.str "circ", r, cx, cy] => pure (.circ (← num r) (← num cx) (← num cy))
+  | [.str "poly", vs] => pure (.poly (← listOf (fun v => do
+      match ← asArr v with
+      | [x, y] => pure (← num x, ← num y)
+      | _ => throw "poly vertex") vs))
+  | _ => throw "shape1"
+
+def val (j : Json) : P Val := do
+  match ← asArr j with
+  | [.str "e", x] => pure (.exact (← num x))
+  | [.str "i", a, b] => pure (.interval (← num a) (← num b))
+  | _ => throw "val"
+
+def timeV (j : Json) : P TimeV := do
+  match ← asArr j with
+  | [.str "e", t] => pure (.exact (← asInt t))
+  | [.str "i", a, b] => pure (.interval (← asInt a) (← asInt b))
+  | _ => throw "timeV"
+
+def pos (j : Json) : P Pos := do
+  match ← asArr j with
+  | [.str "pt", q] => pure (.point (← pt q))
+  | [.str "sh", s] => pure (.shapes (← listOf shape1 s))
+  | [.str "ll", l] => pure (.lanelets (← listOf asInt l))
+  | _ => throw "pos"
+
+def attr (j : Json) : P Attr := do
+  match ← asArr j with
+  | [.str "pos", q] => pure (.position (← pos q))
+  | [.str "time", t] => pure (.time (← timeV t))
+  | [.str "val", n, v] => pure (.value (← asStr n) (← val v))
+  | _ => throw "attr"
+
+def state (j : Json) : P (List Attr) := listOf attr j
+
+def signal (j : Json) : P Signal := do
+  pure { t := ← getInt j "t", horn := ← getOpt asBool j "horn", il := ← getOpt asBool j "il", ir := ← getOpt asBool j "ir",
+         bl := ← getOpt asBool j "bl", hz := ← getOpt asBool j "hz", fb := ← getOpt asBool j "fb" }
+
+def occ (j : Json) : P Occ := do pure { shape := ← getList shape1 j "shape", t := ← timeV (← field j "t") }
+
+def prediction (j : Json) : P Prediction :=
+  match j with
+  | .null => pure .none
+  | v => do
+    match ← asArr v with
+    | [.str "traj", s] => pure (.traj (← listOf state s))
+    | [.str "occ", o] => pure (.occ (← listOf occ o))
+    | _ => throw "prediction"
+
+def intBool (j : Json) : P (Int × Bool) := do
+  match ← asArr j with
+  | [i, b] => pure (← asInt i, ← asBool b)
+  | _ => throw "adjacent"
+
+def stopLine (j : Json) : P StopLineD := do
+  let pts ← getOpt (fun v => do
+    match ← asArr v with
+    | [a, b] => pure (← pt a, ← pt b)
+    | _ => throw "stop line points") j "pts"
+  pure { pts := pts, marking := ← getOpt asStr j "marking", signs := ← getList asInt j "signs", lights := ← getList asInt j "lights" }
+
+def lanelet (j : Json) : P LaneletD := do
+  pure { id := ← getInt j "id", left := ← getList pt j "left", right := ← getList pt j "right",
+         lmLeft := ← getOpt asStr j "lml", lmRight := ← getOpt asStr j "lmr", pred := ← getList asInt j "pred",
+         succ := ← getList asInt j "succ", adjL := ← getOpt intBool j "adjl", adjR := ← getOpt intBool j "adjr",
+         stop := ← getOpt stopLine j "stop", types := ← getList asStr j "types", oneWay := ← getList asStr j "oneway",
+         bidir := ← getList asStr j "bidir", signs := ← getList asInt j "signs", lights := ← getList asInt j "lights" }
+
+def sign (j : Json) : P SignD := do
+  let els ← getList (fun e => do
+    match ← asArr e with
+    | [i, vs] => pure (← asStr i, ← listOf asStr vs)
+    | _ => throw "sign element") j "elements"
+  pure { id := ← getInt j "id", elements := els, pos := ← getOpt pt j "pos", virtual := ← getOpt asBool j "virtual" }
+
+def light (j : Json) : P LightD := do
+  let cyc ← getOpt (fun c => do
+    let es ← getList (fun e => do
+      match ← asArr e with
+      | [d, col] => pure (← asInt d, ← asStr col)
+      | _ => throw "cycle element") c "elements"
+    pure (es, ← getOpt asInt c "offset")) j "cycle"
+  pure { id := ← getInt j "id", cycle := cyc, pos := ← getOpt pt j "pos", direction := ← getOpt asStr j "direction",
+         active := ← getOpt asBool j "active" }
+
+def incoming (j : Json) : P IncomingD := do
+  pure { id := ← getInt j "id", lanelets := ← getList asInt j "lanelets", right := ← getList asInt j "right",
+         straight := ← getList asInt j "straight", left := ← getList asInt j "left", leftOf := ← getOpt asInt j "leftOf" }
+
+def intersection (j : Json) : P IntersectionD := do
+  pure { id := ← getInt j "id", incomings := ← getList incoming j "incomings", crossings := ← getList asInt j "crossings" }
+
+def staticObs (j : Json) : P StaticObs := do
+  pure { id := ← getInt j "id", type := ← getStr j "type", shape := ← getList shape1 j "shape", init := ← state (← field j "init") }
+
+def dynObs (j : Json) : P DynObs := do
+  pure { id := ← getInt j "id", type := ← getStr j "type", shape := ← getList shape1 j "shape", init := ← state (← field j "init"),
+         sig0 := ← getOpt signal j "sig0", pred := ← prediction ((fieldOpt j "pred").getD .null),
+         series := ← getList signal j "series" }
+
+def phantomObs (j : Json) : P PhantomObs := do
+  pure { id := ← getInt j "id", occ := ← getOpt (listOf occ) j "occ" }
+
+def envObs (j : Json) : P EnvObs := do
+  pure { id := ← getInt j "id", type := ← getStr j "type", shape := ← getList shape1 j "shape" }
+
+def problem (j : Json) : P ProblemD := do
+  pure { id := ← getInt j "id", init := ← state (← field j "init"), goals := ← getList state j "goals" }
+
+def location (j : Json) : P LocationD := do
+  let geo ← getOpt (fun g => do
+    pure ({ ref := ← getStr g "ref", x := ← num (← field g "x"), y := ← num (← field g "y"), rot := ← num (← field g "rot"),
+            scale := ← num (← field g "scale") } : GeoD)) j "geo"
+  let env ← getOpt (fun e => do
+    pure ({ hours := ← getNat e "h", minutes := ← getNat e "m", timeOfDay := ← getStr e "tod", weather := ← getStr e "weather",
+            underground := ← getStr e "underground" } : EnvD)) j "env"
+  pure { geoNameId := ← getInt j "geoNameId", lat := ← num (← field j "lat"), lon := ← num (← field j "lon"), geo := geo, env := env }
+
+def docD (j : Json) : P DocD := do
+  pure { precision := ← getNat j "precision", dt := ← num (← field j "dt"), version := ← getStr j "version",
+         author := ← getStr j "author", affiliation := ← getStr j "affiliation", source := ← getStr j "source",
+         benchmark := ← getStr j "benchmark", date := ← getStr j "date", location := ← location (← field j "location"),
+         tags := ← getList asStr j "tags", lanelets := ← getList lanelet j "lanelets", signs := ← getList sign j "signs",
+         lights := ← getList light j "lights", intersections := ← getList intersection j "intersections",
+         statics := ← getList staticObs j "statics", dynamics := ← getList dynObs j "dynamics",
+         phantoms := ← getList phantomObs j "phantoms", envs := ← getList envObs j "envs",
+         problems := ← getList problem j "problems" }
+
+partial def xmlJ : Xml → Json
+  | .node n a t ks =>
+    Json.arr #[Json.str n, Json.mkObj (a.map fun (k, v) => (k, Json.str v)), Json.str (String.ofList t), Json.arr (ks.map xmlJ).toArray]
+
+end Doc
+
 def handle (op : String) (a : Json) : P Json := do
   match op with
   | "validate" =>
@@ -117,6 +282,12 @@ def handle (op : String) (a : Json) : P Json := do
       | [b, args] => kids (← asStr b) args
       | _ => throw "kids item") a "items"
     pure <| Json.arr (items.map namesJ).toArray
+  | "tree" =>
+    -- the whole document the modelled writer produces from the data, and the model validator's verdict on it
+    let d ← docD (← field a "doc")
+    let t := CR.XmlW.docNode d
+    pure <| Json.mkObj [("tree", xmlJ t), ("valid", Json.bool (validDoc schema t)),
+                        ("expressible", Json.bool (decide (CR.C03.Expressible d))), ("why", namesJ (CR.C03.explainDoc d))]
   | "content" =>
     -- does the child-name sequence match the content model of the named type?
     let t ← getStr a "type"
